@@ -303,10 +303,10 @@ theorem copy_equal_node_st {st : State} (h : SInv st) (ha : Ops.AllAlive st) (hk
     rw [step_eq hcomp hexec, hab, hw1]
 
 /-- a copy of a node container (List, Map, MultiMap, HashMap, HashSet) has the value of its source -/
-theorem copy_equal_node (ops : List Op) (c : Var) (w : Nat) (hc : c.valid = true) (hp : c.k.isPool = false)
+theorem copy_equal_node (p : Per) (ops : List Op) (c : Var) (w : Nat) (hc : c.valid = true) (hp : c.k.isPool = false)
     (hw : w ≤ 1) (hne : c.v ≠ w) :
-    absNode (step (run init ops) (.copy c w)) c = absNode (run init ops) ⟨c.k, w⟩ ∧
-    absNode (step (run init ops) (.assign c w)) c = absNode (run init ops) ⟨c.k, w⟩ :=
-  copy_equal_node_st (reach_ok ops).1 (Ops.allAlive_reach ops) (keysOk_reach ops) c w hc hp hw hne
+    absNode (step (run (init p) ops) (.copy c w)) c = absNode (run (init p) ops) ⟨c.k, w⟩ ∧
+    absNode (step (run (init p) ops) (.assign c w)) c = absNode (run (init p) ops) ⟨c.k, w⟩ :=
+  copy_equal_node_st (reach_ok p ops).1 (Ops.allAlive_reach p ops) (keysOk_reach p ops) c w hc hp hw hne
 
 end Nstd.Life.Copy
